@@ -235,9 +235,9 @@ def run(prop, tier, seed):
         t1 = time.time()
         (gen_n, dist, names, kill), reused = olcart.model_check_cached(tier, scans=(prop == "C09"))
         phases["olcart_exhaustive_and_killers"] = round(time.time() - t1, 1)
-        if not reused:
-            cov["states"] += dist
-            cov["transitions"] += gen_n
+        # the counts are those of the TLC run that checked this specification and catalogue (reused or not)
+        cov["states"] += dist
+        cov["transitions"] += gen_n
         cov["olcart_model"] = {"tlc_run_reused_from_sibling_check_on_identical_spec_and_catalogue": reused,
                                "scenarios_checked_exhaustively": names, "distinct_states": dist, "generated_states": gen_n,
                                "module": "OlcArtIter (iterator and scan protocol on top of OlcArt)" if prop == "C09" else "OlcArt",
@@ -261,8 +261,7 @@ def run(prop, tier, seed):
                 if ta["trap_states"]:
                     raise vlib.CheckBroken("OlcArt design has trap states (operations that can never all return): %s"
                                            % json.dumps(ta["traps"])[:1500])
-                if not ta_reused:
-                    cov["states"] += ta["states"]
+                cov["states"] += ta["states"]
             cov["olcart_model"]["no_trap"] = traps
             phases["olcart_no_trap"] = round(time.time() - t1, 1)
         if prop in ("C03", "C09"):
